@@ -45,6 +45,7 @@ TESTS = {
     "bet-fixed": {"test": "betting_mart", "bet": "fixed_bet", "kw": {"lam": 0.4}},
     "km": {"test": "kaplan_markov", "kw": {}},
     "kw": {"test": "kaplan_wald", "kw": {}},
+    "kk": {"test": "kaplan_kolmogorov", "kw": {}},   # (needs a finite population; the padding g is the contest's)
 }
 
 
